@@ -14,10 +14,14 @@ import (
 	"encoding/json"
 	"encoding/pem"
 	"fmt"
+	"google.golang.org/grpc"
+	"google.golang.org/grpc/codes"
+	"google.golang.org/grpc/status"
 	"math/big"
 	"os"
 	"os/exec"
 	"strconv"
+	"strings"
 	"time"
 
 	plugin "github.com/hashicorp/go-plugin"
@@ -38,6 +42,9 @@ type kitServeCfg struct {
 	LegacyProto   string `json:"legacy_proto,omitempty"`
 	// GRPCServer: set ServeConfig.GRPCServer (needed for any grpc set).
 	GRPCServer bool `json:"grpc_server,omitempty"`
+	// StdioStatus "internal": the plugin's GRPCStdio/StreamStdio call ends at once with the status code Internal (what a
+	// plugin in another language, server middleware or a proxy in between may answer)
+	StdioStatus string `json:"stdio_status,omitempty"`
 	// TLS: "" | "static" (TLSProvider using CertPEM/KeyPEM, requiring and verifying client certs from the same cert)
 	TLS     string `json:"tls,omitempty"`
 	CertPEM string `json:"cert_pem,omitempty"`
@@ -128,6 +135,16 @@ func pluginKit(args []string) {
 	}
 	if cfg.GRPCServer {
 		sc.GRPCServer = plugin.DefaultGRPCServer
+		if cfg.StdioStatus == "internal" {
+			sc.GRPCServer = func(opts []grpc.ServerOption) *grpc.Server {
+				return grpc.NewServer(append(opts, grpc.StreamInterceptor(func(srv interface{}, ss grpc.ServerStream, info *grpc.StreamServerInfo, handler grpc.StreamHandler) error {
+					if strings.HasSuffix(info.FullMethod, "/StreamStdio") {
+						return status.Error(codes.Internal, "stdio is not available from this plugin")
+					}
+					return handler(srv, ss)
+				}))...)
+			}
+		}
 	}
 	if cfg.TLS == "static" {
 		sc.TLSProvider = func() (*tls.Config, error) { return staticTLS(cfg.CertPEM, cfg.KeyPEM) }
